@@ -380,7 +380,7 @@ func (this *Dataset) Search(ctx context.Context, query math.Vector, k uint) (ind
 		wg.Wait()
 	}()
 
-	result := make(index.SearchResult, 0, int(k)*len(nodePartitions))
+	result := make(index.SearchResult, 0)
 	for i := 0; i < len(nodePartitions); i++ {
 		select {
 		case items := <-resultCh:
@@ -422,7 +422,7 @@ func (this *Dataset) SearchPartitions(ctx context.Context, partitionIds []uuid.U
 		wg.Wait()
 	}()
 
-	result := make(index.SearchResult, 0, int(k)*len(partitions))
+	result := make(index.SearchResult, 0)
 	for i := 0; i < len(partitions); i++ {
 		select {
 		case items := <-resultCh:
@@ -505,7 +505,7 @@ func (this *Dataset) searchPartitionsOnNode(ctx context.Context, nodeId uint64, 
 		return
 	}
 
-	result := make(index.SearchResult, 0, k)
+	result := make(index.SearchResult, 0)
 	for {
 		item, err := stream.Recv()
 		if err == io.EOF {
